@@ -344,6 +344,7 @@ def simulate_interrupted(res, time, sched, at_call, how="raise"):
 
     n = {"calls": 0}
     real = res.alpha_scaled
+    had = res.__dict__.get("alpha_scaled")  # (a hook the workload itself put on the object stays there afterwards)
 
     def hook(pseudopressure):
         n["calls"] += 1
@@ -368,7 +369,10 @@ def simulate_interrupted(res, time, sched, at_call, how="raise"):
     except Exception as e:  # noqa: BLE001
         out = ("raised", type(e).__name__)
     finally:
-        del res.alpha_scaled  # back to the class's own method
+        if had is not None:
+            res.alpha_scaled = had
+        else:
+            del res.alpha_scaled  # back to the class's own method
         SIM_EVENTS.clear()
     return out + (n["calls"],)
 
